@@ -66,3 +66,18 @@ Theorem c09_revert_order_is_source :
   before "atomic.AddInt64" "s.readRootsScan" l = true.
 Proof. exact DecRevert.revert_order. Qed.
 Print Assumptions c09_revert_order_is_source.
+
+From GK Require Import DecSites.
+(* WHERE the source touches the file: one Truncate site (FlushRevert), four WriteAt sites, five ReadAt sites *)
+Theorem c09_file_call_sites_are_source :
+  sites "Truncate" = ["Store.FlushRevert"] /\
+  sites "WriteAt" = ["Store.ItemValWrite"; "Store.writeRoots"; "itemLoc.write"; "nodeLoc.write"] /\
+  sites "ReadAt" = ["Store.ItemValRead"; "Store.checkAndReadRoots"; "Store.scanBackwardsForMagicEnd"; "itemLoc.read"; "nodeLoc.read"] /\
+  sites "Stat" = ["Store.readRoots"].
+Proof. exact DecSites.file_call_sites. Qed.
+Print Assumptions c09_file_call_sites_are_source.
+
+Theorem c09_no_direct_size_assignment_is_source :
+  filter (fun nb => existsb (ends_with ".size") (assigned 400 (snd nb))) g_code = [].
+Proof. exact DecSites.no_direct_size_assignment. Qed.
+Print Assumptions c09_no_direct_size_assignment_is_source.
